@@ -605,8 +605,13 @@ def do_codegen(codegen, *mvs) -> CodegenOutput:
         dependencies = None
 
     # Sort the keys in canonical order
-    res = {bin: res[bin] if isinstance(res, dict) else getattr(res, canon)
-           for canon, bin in algebra.canon2bin.items() if bin in res.keys()}
+    keys_out = res.keys()
+    if algebra.graded and keys_out:
+        # A graded result holds complete grades, also when a degenerate metric makes some coefficients vanish.
+        grades = tuple(sorted({format(k, 'b').count('1') for k in keys_out}))
+        keys_out = algebra.indices_for_grades[grades]
+    res = {bin: (res[bin] if isinstance(res, dict) else getattr(res, canon)) if bin in res.keys() else 0
+           for canon, bin in algebra.canon2bin.items() if bin in keys_out}
 
     if not algebra.cse and any(isinstance(v, str) for v in res.values()):
         return func_builder(res, *mvs, funcname=funcname)
